@@ -55,6 +55,8 @@ def gen_chain(rng):
             ws.plugin.append("plug/plugmod.py")
         else:
             wsgen.rand_fixture(rng, pf("vv/lib/site-packages/tp/plugin.py"), "foo", params=params, multiline=ml)
+            if rng.random() < 0.7:
+                ws.plugin.append("vv/lib/site-packages/tp/plugin.py")
     uf = pf(upath)
     uf.test("test_inner", params=("foo",))
     if rng.random() < 0.5:
